@@ -239,13 +239,18 @@ def build_direct_graph(rng):
     pyzx = _ENV["pyzx"]
     graph = pyzx.Graph()
     n_in, n_out, n_sp = rng.randint(0, 3), rng.randint(0, 3), rng.randint(1, 5)
-    ins = [graph.add_vertex(pyzx.VertexType.BOUNDARY) for _ in range(n_in)]
-    spiders = []
-    for _ in range(n_sp):
-        ty = pyzx.VertexType.Z if rng.random() < .5 else pyzx.VertexType.X
-        p = rng.choice([None, 0.5, 1, 1.5, 0.25, 0.6])
-        spiders.append(graph.add_vertex(ty, phase=p))
-    outs = [graph.add_vertex(pyzx.VertexType.BOUNDARY) for _ in range(n_out)]
+    roles = ["in"] * n_in + ["spider"] * n_sp + ["out"] * n_out
+    if rng.random() < .5:
+        rng.shuffle(roles)      # vertex numbers need not follow the flow
+    ins, spiders, outs = [], [], []
+    for role in roles:
+        if role == "spider":
+            ty = pyzx.VertexType.Z if rng.random() < .5 else pyzx.VertexType.X
+            p = rng.choice([None, 0.5, 1, 1.5, 0.25, 0.6])
+            spiders.append(graph.add_vertex(ty, phase=p))
+        else:
+            (ins if role == "in" else outs).append(
+                graph.add_vertex(pyzx.VertexType.BOUNDARY))
     for v in ins + outs:
         graph.add_edge((v, rng.choice(spiders)), rng.choice(
             [pyzx.EdgeType.SIMPLE, pyzx.EdgeType.SIMPLE, pyzx.EdgeType.HADAMARD]))
